@@ -337,7 +337,9 @@ class HashClient:
         try:
             failed = client.set_many(values, *args, **kwargs)
         except Exception as e:
-            if not self.ignore_exc:
+            # connection failures must reach the failover bookkeeping of the
+            # caller even when they are not re-raised to the user
+            if not self.ignore_exc or isinstance(e, OSError):
                 return succeeded, failed, e
 
         succeeded = [key for key in values if key not in failed]
